@@ -1086,6 +1086,14 @@ def known_findings(ck: Check) -> None:
 def run(ck: Check) -> None:
     quick = ck.tier == "quick"
     ck.translate(graphql_tables.GEN_NAME, graphql_tables.generate())
+    # the enum half rests on C09's model of the member loop: its tables (escape_characters, the initial excludes of
+    # the GraphQL call site, the identifier tables of the resolver) are regenerated here as well
+    from ..translate import enum_sites, esc
+    from ..translate import unicode as uni
+
+    ck.translate("Unicode", uni.generate())
+    ck.translate("EscTables", esc.generate())
+    ck.translate("EnumSites", enum_sites.generate())
     ck.prove()
     ck.assumptions += [
         "graphql-core (build_schema, lexicographic_sort_schema, the is_*_type predicates) is used as it is; the model takes the order of fields and interfaces it reports as a parameter",
@@ -1110,6 +1118,7 @@ def run(ck: Check) -> None:
     guard.campaign(ck, c17_fields.campaign_defaults_e2e, me, 30 if quick else 150)
     guard.campaign(ck, c17_fields.campaign_defaults_static, me, 12 if quick else 120)
     guard.campaign(ck, c17_fields.campaign_clash, me, 40 if quick else 200)
+    guard.campaign(ck, c17_enum.campaign_enum_values, me, 150 if quick else 2000)
     guard.campaign(ck, c17_enum.campaign_enum_family, me, 28 if quick else 300)
     guard.campaign(ck, c17_order.campaign_family, me, quick)
     guard.campaign(ck, c17_order.campaign_all_orders, me, quick)
